@@ -234,6 +234,33 @@ def judge(w, tap, scenario, reach):
         reach['child_judged'] = reach.get('child_judged', 0) + 1
         if sa_r is None:
             reach['no_proposal_chosen_expected'] = reach.get('no_proposal_chosen_expected', 0) + 1
+    # ---- the initiator refuses a response whose proposal is not drawn from its own offer: exactly one transform of every type of the
+    #      offered proposal with that number, each among the offered ones (an honest but differently configured responder - PFS on one side
+    #      only - sends such responses too, no Byzantine peer needed)
+    for ch in tap.children:
+        if ch['res'].get('rewritten') or ch['req'].get('rewritten'):
+            continue
+        c = ch['chosen']
+        ctypes = [t['type'] for t in c['transforms']]
+
+        def drawn(p):
+            offered = {(t['type'], t['id'], t['keylen']) for t in p['transforms']}
+            # (IKE_AUTH carries no KE: a DH transform offered there - pyikev2 does send it, against RFC 7296 3.3.2 - cannot be chosen)
+            return (p['proto'] == c['proto'] and p['num'] == c['num'] and sorted(set(ctypes)) == sorted(ctypes)
+                    and set(ctypes) == {t['type'] for t in p['transforms'] if not (ch['initial'] and t['type'] == R.T_DH)}
+                    and all((t['type'], t['id'], t['keylen']) in offered for t in c['transforms']))
+        reach['responses_checked_against_offer'] = reach.get('responses_checked_against_offer', 0) + 1
+        if any(drawn(p) for p in ch['offer']):
+            continue
+        reach['response_not_drawn_from_offer'] = reach.get('response_not_drawn_from_offer', 0) + 1
+        node = w.nodes.get(ch['x_init'])
+        if node is None:
+            continue
+        if any(key[2] in (ch['spi_resp'], ch['spi_init']) for key in newsa_index(node)):
+            missing = sorted({t['type'] for p in ch['offer'] for t in p['transforms']} - set(ctypes))
+            return V('response_not_drawn_from_offer_installed', {'missing_types': str(missing), 'initial': ch['initial']},
+                     f'{ch["x_init"]} installed CHILD_SA {ch["spi_init"].hex()}/{ch["spi_resp"].hex()} although the response proposal '
+                     f'{sorted(tset(c))} is not drawn from its offer {[sorted(tset(p)) for p in ch["offer"]]} (transform types missing: {missing})')
     # ---- a refused negotiation installs nothing: every NEWSA belongs to a negotiation the wiretap saw succeed
     ok_spis = {c['spi_init'] for c in tap.children} | {c['spi_resp'] for c in tap.children}
     if not any(s.opaque for s in tap.sessions.values()):
